@@ -72,8 +72,10 @@ P_p3 == LET e1 == VScale(R(1, 2), S_z0) e2 == VScale(R(1, 2), S_x0) IN <<e1, e2,
 P_p4 == <<VScale(R(1, 2), S_z0), VScale(R(1, 2), S_z1), VScale(R(1, 2), S_y0), VScale(R(1, 2), S_y1)>>
 \* two outcomes, full rank, unsharp
 P_u2 == <<<<R(1, 2), R(1, 8), R(1, 8), R(-1, 4)>>, <<R(1, 2), R(-1, 8), R(-1, 8), R(1, 4)>>>>
+\* five outcomes incl. a full-rank multiple of the identity
+P_p5 == <<VScale(R(1, 2), S_z0), VScale(R(1, 2), S_z1), VScale(R(1, 4), S_x0), VScale(R(1, 4), S_x1), VScale(R(1, 4), IdentityH(4))>>
 QPovm(name) ==
-    CASE name = "z" -> P_z [] name = "x" -> P_x [] name = "y" -> P_y
+    CASE name = "p5" -> P_p5 [] name = "z" -> P_z [] name = "x" -> P_x [] name = "y" -> P_y
       [] name = "p3" -> P_p3 [] name = "p4" -> P_p4 [] name = "u2" -> P_u2
 \* unitaries / Kraus sets as integer matrices with a rational prefactor c (on rho: c * sum K rho K^dagger)
 U_I == CMatInt(P_I)
@@ -119,6 +121,7 @@ M_mx == <<L_xp, L_xm>>                                                  \* proje
 M_m3 == <<MatScale(R(1, 2), L_z0), MatScale(R(1, 2), SuperH(<<CMatMul(U_X, MZ1)>>, ROne, Q1)), MatScale(R(1, 2), G_h)>>
 \* four outcomes: (1/2) Lueders z  +  (1/2) Lueders x
 M_m4 == <<MatScale(R(1, 2), L_z0), MatScale(R(1, 2), L_z1), MatScale(R(1, 2), L_xp), MatScale(R(1, 2), L_xm)>>
+M_m5 == <<MatScale(R(1, 2), L_z0), MatScale(R(1, 2), L_z1), MatScale(R(1, 4), L_xp), MatScale(R(1, 4), L_xm), MatScale(R(1, 4), G_id)>>
 QMProcess(name) ==
-    CASE name = "mz" -> M_mz [] name = "mx" -> M_mx [] name = "m3" -> M_m3 [] name = "m4" -> M_m4
+    CASE name = "m5" -> M_m5 [] name = "mz" -> M_mz [] name = "mx" -> M_mx [] name = "m3" -> M_m3 [] name = "m4" -> M_m4
 =============================================================================
